@@ -251,7 +251,7 @@ __CPROVER_loop_invariant((k == (unsigned long)g_k && m > (unsigned long)g_m) ==>
 __CPROVER_decreases(g_fromN - m)
 //@end
 
-//@harness h_FOP_compute enforce=FieldOperatorPart_compute props=C10,C07 min_obl=1630 reach=4 timeout=900
+//@harness h_FOP_compute enforce=FieldOperatorPart_compute props=C10,C07 min_obl=1613 reach=4 timeout=900
 void h_FOP_compute(void)
 {
   struct FieldOperatorPart *p;
